@@ -1,15 +1,16 @@
 //go:build verif
 
 // c03: only healthy, eligible endpoints receive traffic.
-//   table    the real StaticEndpointRepository (LoadFromConfig, the way the unit tests build it) with every
-//            status x priority-pattern assignment for n <= 4 endpoints: GetHealthy / GetRoutable, and the three
-//            real selectors from balancer.NewFactory on the healthy snapshot and on the full list
-//   history  op histories on the real repository: UpdateEndpoint, snapshot (GetHealthy / GetAll / GetRoutable),
-//            scribbling on a snapshot's records after it was taken, Select on a (possibly stale) snapshot
-//   stack    the production wiring with scripted backends: sequential histories of status writes, requests
-//            hitting failing backends (proxy-detected failure -> offline), recoveries, interleaved with requests;
-//            every backend contact is checked against the repository's status when the request was sent
-//   race     concurrent status writers + request senders on one stack; interval check per contact
+//
+//	table    the real StaticEndpointRepository (LoadFromConfig, the way the unit tests build it) with every
+//	         status x priority-pattern assignment for n <= 4 endpoints: GetHealthy / GetRoutable, and the three
+//	         real selectors from balancer.NewFactory on the healthy snapshot and on the full list
+//	history  op histories on the real repository: UpdateEndpoint, snapshot (GetHealthy / GetAll / GetRoutable),
+//	         scribbling on a snapshot's records after it was taken, Select on a (possibly stale) snapshot
+//	stack    the production wiring with scripted backends: sequential histories of status writes, requests
+//	         hitting failing backends (proxy-detected failure -> offline), recoveries, interleaved with requests;
+//	         every backend contact is checked against the repository's status when the request was sent
+//	race     concurrent status writers + request senders on one stack; interval check per contact
 package main
 
 import (
@@ -273,11 +274,15 @@ type sstep struct {
 }
 
 type stackCase struct {
-	Engine   string            `json:"engine"`
-	Balancer string            `json:"balancer"`
-	Names    []string          `json:"names"`
-	Prios    []int             `json:"prios"`
-	Ops      []sop             `json:"ops"`
+	Engine   string   `json:"engine"`
+	Balancer string   `json:"balancer"`
+	Names    []string `json:"names"`
+	Prios    []int    `json:"prios"`
+	Ops      []sop    `json:"ops"`
+	// Strategy: "" = default routing; "discovery-all" / "optimistic-all" = model_registry.routing_strategy of that type
+	// with fallback_behavior all (and discovery_refresh_on_miss), requests name a model nobody lists: the candidate
+	// set is "every healthy endpoint", computed per request
+	Strategy string `json:"strategy,omitempty"`
 }
 
 func quiesceStatuses(s *stack.Stack) map[string]string {
@@ -299,7 +304,17 @@ func runStack(sc *stackCase) map[string]any {
 			b.Close()
 		}
 	}()
-	s, err := stack.Start(stack.Opts{Engine: sc.Engine, Balancer: sc.Balancer, Profile: "auto", EPs: eps})
+	s, err := stack.Start(stack.Opts{Engine: sc.Engine, Balancer: sc.Balancer, Profile: "auto", EPs: eps, Mutate: func(cfg *config.Config) {
+		switch sc.Strategy {
+		case "discovery-all":
+			cfg.ModelRegistry.RoutingStrategy.Type = "discovery"
+			cfg.ModelRegistry.RoutingStrategy.Options.DiscoveryRefreshOnMiss = true
+			cfg.ModelRegistry.RoutingStrategy.Options.FallbackBehavior = "all"
+		case "optimistic-all":
+			cfg.ModelRegistry.RoutingStrategy.Type = "optimistic"
+			cfg.ModelRegistry.RoutingStrategy.Options.FallbackBehavior = "all"
+		}
+	}})
 	if err != nil {
 		return map[string]any{"start_err": err.Error()}
 	}
@@ -323,7 +338,11 @@ func runStack(sc *stackCase) map[string]any {
 			for _, b := range backends {
 				b.Taken()
 			}
-			raw := stack.Request("POST", "/olla/proxy/v1/chat/completions", s.Addr, [][2]string{{"Content-Type", "application/json"}}, []byte(fmt.Sprintf(`{"messages":[{"role":"user","content":"r%d"}]}`, reqNo)), false)
+			body := fmt.Sprintf(`{"messages":[{"role":"user","content":"r%d"}]}`, reqNo)
+			if sc.Strategy != "" {
+				body = fmt.Sprintf(`{"model":"zz-nobody-lists-%d","messages":[{"role":"user","content":"r%d"}]}`, reqNo%2, reqNo)
+			}
+			raw := stack.Request("POST", "/olla/proxy/v1/chat/completions", s.Addr, [][2]string{{"Content-Type", "application/json"}}, []byte(body), false)
 			r := stack.Do(s.Addr, raw, 5*time.Second)
 			st.Status = r.Status
 			var all []*stack.Seen
@@ -413,10 +432,10 @@ func cornerStacks() []*stackCase {
 // ---------------------------------------------------------------- race
 
 type write struct {
-	T int64  `json:"t"` // ns since the start of the run, taken AFTER the write returned
-	T0 int64 `json:"t0"` // … taken BEFORE the write was issued
-	E string `json:"e"`
-	S string `json:"s"`
+	T  int64  `json:"t"`  // ns since the start of the run, taken AFTER the write returned
+	T0 int64  `json:"t0"` // … taken BEFORE the write was issued
+	E  string `json:"e"`
+	S  string `json:"s"`
 }
 
 type contact struct {
@@ -610,7 +629,14 @@ func main() {
 	for _, engine := range []string{"sherpa", "olla"} {
 		for _, bal := range balancers {
 			for i := 0; i < ns; i++ {
-				scs = append(scs, genStack(r, engine, bal, 2+r.Intn(2)))
+				sc := genStack(r, engine, bal, 2+r.Intn(2))
+				switch i % 4 {
+				case 1:
+					sc.Strategy = "discovery-all"
+				case 3:
+					sc.Strategy = "optimistic-all"
+				}
+				scs = append(scs, sc)
 			}
 		}
 	}
